@@ -16,7 +16,7 @@ EVID = os.environ.get("VERIF_EVIDENCE_DIR", os.path.join(VERIF, "evidence"))
 
 class Case:
     def __init__(self, cid, fn, functions=(), bounded=None, max_paths=4000, conc=True, note="",
-                 sym=True, thorough_only=False):
+                 sym=True, thorough_only=False, random_runs=0):
         self.cid = cid
         self.fn = fn
         self.functions = list(functions)
@@ -26,6 +26,7 @@ class Case:
         self.sym = sym
         self.note = note
         self.thorough_only = thorough_only
+        self.random_runs = random_runs      # concrete-only case run on this many random inputs
 
 
 def _load_prop(pid):
@@ -296,6 +297,10 @@ class Report:
         jobs = []
         for cid, c in self.cases.items():
             if not c.conc:
+                continue
+            if not c.sym and c.random_runs:
+                for i in range(c.random_runs * (1 if self.tier == "quick" else 5)):
+                    jobs.append({"case": cid, "inputs": {}, "seed": (self.seed + 1) * 100003 + i})
                 continue
             if not c.sym:
                 jobs.append({"case": cid, "inputs": {"__tier": self.tier}, "seed": self.seed, "finite": True,
